@@ -190,7 +190,7 @@ func (fr *Frame) step(ins ssa.Instruction, st *State, pc Term) bool {
 		for _, r := range x.Results {
 			vals = append(vals, fr.val(r))
 		}
-		fr.rets = append(fr.rets, retPoint{pc: pc, st: st.clone(), vals: vals})
+		fr.rets = append(fr.rets, retPoint{blk: fr.curBlk, pc: pc, st: st.clone(), vals: vals})
 		return false
 	case *ssa.Panic:
 		if !(fr.u.spec != nil && fr.u.spec.MayPanic) {
